@@ -129,7 +129,7 @@ func (channel *Channel) basicGet(method *amqp.BasicGet) (err *amqp.Error) {
 		Redelivered:  message.DeliveryCount > 0,
 		Exchange:     message.Exchange,
 		RoutingKey:   message.RoutingKey,
-		MessageCount: 1,
+		MessageCount: uint32(qu.Length()),
 	}, message)
 
 	channel.server.GetMetrics().Get.Counter.Inc(1)
